@@ -6,6 +6,15 @@ d=$(mktemp -d)
 printf '{"Replace":{"%s/x/liquidity/amm/zz_verif_c06_bounded_test.go":"/verif/bounded/c06/ranged_create_test.go"}}' $repo > $d/ov.json
 cd $repo && VERIF_C06_KNOWN=/verif/bounded/c06/known_excursions.txt VERIF_TIER=$1 VERIF_BOUNDED_OUT=$2 go test -overlay $d/ov.json -vet=off -count=1 -timeout 600s -run 'TestVerifC06RangedCreateWithinOffer|TestVerifC06RangedPriceWithinRange' ./x/liquidity/amm/ > $d/log 2>&1
 rc=$?
-tail -25 $d/log > ${2%.json}.log
+# third law group: executed requests on the real keeper (its own summary file is merged by bin/check as extra_groups)
+printf '{"Replace":{"%s/x/liquidity/keeper/zz_verif_c06_bounded_test.go":"/verif/bounded/c06/keeper_requests_test.go"}}' $repo > $d/ov2.json
+VERIF_TIER=$1 VERIF_BOUNDED_OUT=${2%.json}.keeper.json go test -overlay $d/ov2.json -vet=off -count=1 -timeout 900s -run 'TestKeeperTestSuite' ./x/liquidity/keeper/ -testify.m 'TestVerifC06KeeperRequests' > $d/log2 2>&1
+rc2=$?
+if [ -f ${2%.json}.keeper.json ] && [ -f $2 ]; then python3 -c "
+import json,sys
+a=json.load(open('$2')); a['third_function_group']=json.load(open('${2%.json}.keeper.json')); json.dump(a,open('$2','w'))"; fi
+rm -f ${2%.json}.keeper.json
+( tail -25 $d/log; grep -v '^I\[' $d/log2 | tail -25 ) > ${2%.json}.log
+[ $rc -eq 0 ] && rc=$rc2
 rm -rf $d
 exit $rc
